@@ -99,6 +99,10 @@ Definition abort1 (c : coord) (tx : N) : coord * list tentry :=
   match aget (pending c) tx with
   | None => (c, [])
   | Some t =>
+      (* Committing = the decision is COMMIT (taken by commit() or found in the log by recovery):
+         it can no longer be turned into an abort; nothing is written *)
+      if phase t =? COMMITTING then (c, [])
+      else
       (Co (adel (pending c) tx) (release_tx (locks c) (yes_handles t) tx) (cfg_prepare_timeout c),
        [TPhase tx (phase t) ABORTING; TComplete tx false])
   end.
@@ -153,6 +157,8 @@ Definition step (now : N) (c : coord) (s : step_in) : coord * list tentry * step
       match aget (pending c) tx with
       | None => (c, [], [1; 1])
       | Some t =>
+          if phase t =? COMMITTING then (c, [], [1; 2])      (* refused: already committing *)
+          else
           (Co (adel (pending c) tx) (release_tx (locks c) (yes_handles t) tx) (cfg_prepare_timeout c),
            [TPhase tx (phase t) ABORTING; TComplete tx false], [0])
       end
@@ -173,7 +179,8 @@ Definition step (now : N) (c : coord) (s : step_in) : coord * list tentry * step
   | Timeouts _ order =>
       (* a timeout is an abort decision (it is broadcast and the locks are released): it is logged
          like abort(tx) before it takes effect *)
-      let out := filter (fun p => timeout (snd p) <? now - started (snd p)) (pending c) in
+      (* ... except for Committing transactions, which are left to complete_commit *)
+      let out := filter (fun p => (timeout (snd p) <? now - started (snd p)) && negb (phase (snd p) =? COMMITTING)) (pending c) in
       if negb (same_set order (map fst out)) then (c, [], [9])              (* malformed case *)
       else let '(c', w) := abort_all c order in (c', w, 3 :: sort_N (map fst out))
   end.
@@ -244,6 +251,14 @@ Definition restore_votes (first_wins : bool) (vs : list (N * vote)) : list (N * 
     if first_wins then (match aget m (fst sv) with Some _ => m | None => aset m (fst sv) (snd sv) end)
     else aset m (fst sv) (snd sv)) vs [].
 
+(* a transaction whose completion is in the log is finished, whatever the state the coordinator was
+   constructed with says: it leaves the pending table and nothing it owns stays locked *)
+Definition is_done (s : scan) (tx : N) : bool := existsb (N.eqb tx) (completed s).
+Definition drop_done (s : scan) (p : list (N * txrec)) : list (N * txrec) :=
+  filter (fun x => negb (is_done s (fst x))) p.
+Definition release_done (s : scan) (ls : list (N * N)) : list (N * N) :=
+  filter (fun l => negb (is_done s (snd l))) ls.
+
 (* recover_from_wal on a fresh coordinator: restored transactions + statistics
    (pending_prepare, pending_commit, pending_abort, lock_releases_recovered) *)
 Definition recover_entries (live_rule first_wins : bool) (now : N) (es : list tentry) : coord * list N :=
@@ -275,19 +290,26 @@ Definition dstep (d : dcoord) (s : step_in) : dcoord * step_out :=
 
 (* recover_from_wal() called on a LIVE coordinator (any time after start-up): the log is replayed
    again; every restorable transaction is (re-)inserted into the pending table (fresh start time,
-   votes from the log), transactions still collecting votes are left as they are, orphaned lock
-   handles are released; nothing is written.  None = the replay failed *)
+   votes from the log), transactions still collecting votes are left as they are, transactions
+   the log says are completed leave the table and lose their locks, orphaned lock handles are
+   released; nothing is written.  None = the replay failed *)
 Definition recover_live (d : dcoord) : option (dcoord * list N) :=
   match replay_file deser crc true (file d) with
   | ErrChecksum _ => None
   | Ok es =>
       let '(r, stats) := recover_entries live_rule first_wins (clock d) es in
       let s := fold_left (scan_step live_rule) es sc0 in
-      Some (DC (Co (fold_left (fun p x => aset p (fst x) (snd x)) (pending r) (pending (co d)))
-                   (release (locks (co d)) (map snd (orphans s)))
+      Some (DC (Co (fold_left (fun p x => aset p (fst x) (snd x)) (pending r) (drop_done s (pending (co d))))
+                   (release_done s (release (locks (co d)) (map snd (orphans s))))
                    (cfg_prepare_timeout (co d)))
                (file d) (clock d), stats)
   end.
+
+(* a coordinator constructed from an OLDER SNAPSHOT of its state (load_from_store: pending table and
+   lock table as they were when the snapshot was saved) with the log attached + recover_from_wal():
+   the same call on that state *)
+Definition restart_from (c0 : coord) (now : N) (f : list byte) : option (dcoord * list N) :=
+  let f' := if tail_repair then repair f else f in recover_live (DC c0 f' now).
 
 (* new coordinator .with_wal(TxWal::open(f)) + recover_from_wal(): None = recovery failed *)
 Definition restart (now : N) (f : list byte) : option (dcoord * list N) :=
